@@ -340,7 +340,7 @@ def ir_from_json(j):
 PERTURB_PROSE = ["", " lead.", "trail. ", "two\nlines.", "{a, b}", "{'x', 'y'}", "key:", "Optional thing.", "(Optional) x.",
                  "see Args: here.", "has :param in it.", "Returns: x.", "Defaults to 5.", "x. defaults to 3", "the defaults.",
                  "Raises: E.", "a: b.", "Parameters\n----------", "x.", "x,", "x"]
-PERTURB_TYP = ["str", "str", "Optional[str]", "", " int", "int ", "str or int", "int, optional", "Dict[str: int]", "x:", "a(b)", "Literal['a:b']", "complex",
+PERTURB_TYP = ["not a type", "a b", "str", "str", "Optional[str]", "", " int", "int ", "str or int", "int, optional", "Dict[str: int]", "x:", "a(b)", "Literal['a:b']", "complex",
                "dict", "Optional[dict]", "Literal['Args:']", "object"]
 PERTURB_DEFAULT = ["```x```", "```x```", "'quoted'", '"dq"', "None", "```(None)```", None, 0, -3, 2.5, True, "", "a b", "x.", "```[1]```", "5"]
 
